@@ -12,5 +12,5 @@ tier="${VERIF_TIER:-quick}"
 for id in "$@"; do
   "$here/check" "$id" --tier "$tier" > "$d/$id.log" 2>&1; rc=$?
   echo "== $id rc=$rc  ($(basename "$patch"))"
-  grep -E "^(VIOLATION|KNOWN-FINDING|INCONCLUSIVE|  obligation|C[0-9]+ .quick|C[0-9]+ .thorough)" "$d/$id.log" | cut -c1-400
+  grep -a -E "^(VIOLATION|KNOWN-FINDING|INCONCLUSIVE|  obligation|C[0-9]+ .quick|C[0-9]+ .thorough)" "$d/$id.log" | cut -c1-400
 done
